@@ -35,23 +35,33 @@ def fillInForceCall (ax : AxisM α) (fill : KW α) : α :=
 /-- one pass of a predefined 1-D ufunc along one axis -/
 def stepAxis (o : Ops α) (table : List UfuncEntry) (g : GridM α) (funcname : String)
     (axname : String) (f t : Pos) (boundary : KW String) (fill : KW α)
-    (arr : NDArr α) : Res (NDArr α) := do
-  let e ← selectUfunc table funcname f t
-  let ax ← match g.axis? axname with | some a => pure a | none => throw Err.key
+    (arr : NDArr α) : Res (NDArr α) :=
+  match selectUfunc table funcname f t with
+  | .error e => .error e
+  | .ok e =>
+  match g.axis? axname with
+  | none => .error .key
+  | some ax =>
   -- "Check that input args are in correct grid positions"
-  let dimIn ← match alookup f ax.coords with | some d => pure d | none => throw Err.value
-  let k ← match arr.dimIdx dimIn with | some k => pure k | none => throw Err.value
-  let dimOut ← match alookup t ax.coords with | some d => pure d | none => throw Err.key
-  let fillv := fillInForceCall ax fill
-  -- pad(): all-zero widths return before the boundary word is looked at
-  let rule ← if e.lo = 0 ∧ e.hi = 0 then pure Rule.periodic else
-    match ruleInForceCall ax boundary with | some r => pure r | none => throw Err.key
-  let n := arr.shape.getD k 0
-  let probe := op1d o e rule fillv (List.replicate n fillv)
-  match probe with
-  | none => throw Err.notImpl
-  | some pl =>
-    pure (arr.applyAlong k dimOut pl.length (fun l => (op1d o e rule fillv l).getD []) fillv)
+  match alookup f ax.coords with
+  | none => .error .value
+  | some dimIn =>
+  match arr.dimIdx dimIn with
+  | none => .error .value
+  | some k =>
+  match alookup t ax.coords with
+  | none => .error .key
+  | some dimOut =>
+  -- pad(): the boundary words of all axes are validated first; then all-zero widths return
+  if boundaryWordsOk g boundary = false then .error .value else
+  match (if e.lo = 0 ∧ e.hi = 0 then some Rule.periodic else ruleInForceCall ax boundary) with
+  | none => .error .key
+  | some rule =>
+    let fillv := fillInForceCall ax fill
+    match op1d o e rule fillv (List.replicate (arr.shape.getD k 0) fillv) with
+    | none => .error .notImpl
+    | some pl =>
+      .ok (arr.applyAlong k dimOut pl.length (fun l => (op1d o e rule fillv l).getD []) fillv)
 
 /-- `_create_1d_grid_ufunc_signatures`: positions are read off the ORIGINAL data -/
 def signatureFor (g : GridM α) (dims : List String) (to : KW String) (axname : String) :
